@@ -1,4 +1,5 @@
 #include "sim.h"
+#include "worker.h"
 
 #include <csignal>
 #include <cstdio>
@@ -56,7 +57,7 @@ void Sim::end() { active = false; }
 
 void Sim::event(const std::string& e) {
   ++seq;
-  hash = fnv1a(e, hash);
+  hash = fnv1a(norm_paths(e), hash);
   hash = fnv1a("\n", 1, hash);
   if (record_history && history.size() < 100000) history.push_back(e);
 }
